@@ -13,7 +13,8 @@ META = {
             "(ModifyEvent/CreateEvent/DeleteEvent::from_message, ReviveRecycledEvent::from_parts on a real server whose profiles "
             "are ordinary entries) and each result with its observed post-state is judged by L1 in TLC; L2 must predict the result class.",
     "note": "exhaustive within 1 profile from a 144-profile pool (and pairs from a 32-profile pool in thorough) x 12 entry kinds x 5 "
-            "identities x 14 modification lists; real-server operations are sampled (seeded), each in its own dropped write "
+            "identities x 14 modification lists; real-server operations: a scripted grant-all scenario (every modification list x every "
+            "entry kind, creates, deletes, revives, repeated by ro/sync/Synch identities) + seeded random ones, each in its own dropped write "
             "transaction. Trusted: TLC, the projection of entries / profiles / identities, the backend candidate set (C01). "
             "Modify::Set/Assert (SCIM-only paths) and batch_modify are not driven; 'built-in' is read as 'uuid in the reserved range'.",
     "design_ref": "DESIGN.md section 6, C24",
